@@ -74,13 +74,17 @@ func scrape(h prometheus.Histogram) (s string, panicked bool) {
 	}()
 	var m dto.Metric
 	h.Write(&m)
+	return expoOf(&m), false
+}
+
+func expoOf(m *dto.Metric) string {
 	hh := m.Histogram
 	cum := make([]string, len(hh.Bucket))
 	for i, b := range hh.Bucket {
 		cum[i] = emit.U(b.GetCumulativeCount())
 	}
 	return emit.Tup(emit.Z(int64(hh.GetSchema())), emit.F(hh.GetZeroThreshold()), emit.U(hh.GetZeroCount()), emit.U(hh.GetSampleCount()),
-		emit.F(hh.GetSampleSum()), decode(hh.PositiveSpan, hh.PositiveDelta), decode(hh.NegativeSpan, hh.NegativeDelta), emit.L(cum)), false
+		emit.F(hh.GetSampleSum()), decode(hh.PositiveSpan, hh.PositiveDelta), decode(hh.NegativeSpan, hh.NegativeDelta), emit.L(cum))
 }
 
 func scrapeWithWatchdog(h prometheus.Histogram) (string, bool) {
@@ -289,6 +293,131 @@ func runC05(c *cli.Ctx) error {
 	}
 	if _, hungBefore := w.Extra["stopped_after_hang_at_run"]; hungBefore {
 		return nil // spinning goroutines cannot be reclaimed; the hang is already reported
+	}
+	// ---- (a') scheduled resets: MinResetDuration is set and the injected clock never advances, so exceeding the
+	// bucket limit schedules a delayed reset through the injected afterFunc; a timer thread fires the captured
+	// callbacks at arbitrary points of the schedule. Resets drop observations, so only the upper bounds, the
+	// self-consistency of every scrape and liveness (no deadlock, no hanging scrape) are demanded (kind 2).
+	w = emit.NewWriter(c.Out, "C05", "sched-reset")
+	fired := 0
+	for it := 0; it < 1500*c.Scale; it++ {
+		conf := genCfg(r)
+		conf.maxZT = 0
+		nthreads := 2 + r.Intn(2)
+		progs := make([][]op, nthreads)
+		for t := range progs {
+			n := 2 + r.Intn(3)
+			for i := 0; i < n; i++ {
+				if r.Chance(1, 5) {
+					progs[t] = append(progs[t], op{write: true})
+				} else {
+					progs[t] = append(progs[t], op{v: genValue(r)})
+				}
+			}
+		}
+		v := prometheus.VerifC04New(prometheus.HistogramOpts{Name: "h", Buckets: conf.classic,
+			NativeHistogramBucketFactor: conf.factor, NativeHistogramZeroThreshold: conf.zt, NativeHistogramMaxBucketNumber: conf.maxB,
+			NativeHistogramMinResetDuration: time.Hour}, time.Unix(1000, 0))
+		obs := make([][]obsRec, nthreads)
+		scr := make([][]scrapeRec, nthreads)
+		bodies := make([]func(), nthreads+1)
+		panicked := int32(0)
+		for t := range progs {
+			t := t
+			bodies[t] = func() {
+				defer func() {
+					if e := recover(); e != nil {
+						atomic.StoreInt32(&panicked, 1)
+					}
+				}()
+				for _, o := range progs[t] {
+					inv := vsched.Now()
+					if o.write {
+						var m dto.Metric
+						v.Write(&m)
+						scr[t] = append(scr[t], scrapeRec{expo: expoOf(&m), inv: inv, res: vsched.Now()})
+					} else {
+						v.Observe(o.v)
+						obs[t] = append(obs[t], obsRec{v: o.v, inv: inv, res: vsched.Now()})
+					}
+				}
+			}
+		}
+		bodies[nthreads] = func() { // the timer
+			defer func() {
+				if e := recover(); e != nil {
+					atomic.StoreInt32(&panicked, 1)
+				}
+			}()
+			for i := 0; i < 40; i++ {
+				vsched.Point("timer-poll")
+				if v.Fire() {
+					fired++
+				}
+			}
+		}
+		rr := r.Fork()
+		victim := rr.Intn(nthreads)
+		freezeAfter := 1 + rr.Intn(10)
+		victimSteps := 0
+		res := vsched.Run(bodies, func(ids []int, labels []string) int {
+			if it%2 == 0 && victimSteps >= freezeAfter && len(ids) > 1 {
+				var others []int
+				for k, id := range ids {
+					if id != victim {
+						others = append(others, k)
+					}
+				}
+				if len(others) > 0 {
+					return others[rr.Intn(len(others))]
+				}
+			}
+			k := rr.Intn(len(ids))
+			if ids[k] == victim {
+				victimSteps++
+			}
+			return k
+		}, 200000)
+		flags := 0
+		if res.Deadlock {
+			flags |= 1
+		}
+		if res.StepLimit {
+			flags |= 2
+		}
+		if len(res.Panics) > 0 || panicked != 0 {
+			flags |= 4
+		}
+		var allObs []obsRec
+		var allScr []scrapeRec
+		for t := range progs {
+			allObs = append(allObs, obs[t]...)
+			allScr = append(allScr, scr[t]...)
+		}
+		final := emit.Tup(emit.I(0), emit.F(0), emit.I(0), emit.I(0), emit.F(0), emit.L(nil), emit.L(nil), emit.L(nil))
+		hung := false
+		if flags == 0 {
+			ch := make(chan string, 1)
+			go func() { var m dto.Metric; v.Write(&m); ch <- expoOf(&m) }()
+			select {
+			case final = <-ch:
+			case <-time.After(3 * time.Second):
+				hung = true
+				flags |= 8
+			}
+		}
+		w.Add(caseSx(2, conf, allObs, allScr, final, flags), len(allObs) >= 3, fmt.Sprintf("threads:%d", nthreads), fmt.Sprintf("maxbuckets:%d", conf.maxB))
+		if hung {
+			w.Extra["stopped_after_hang_at_run"] = it
+			break
+		}
+	}
+	w.Extra["timer_callbacks_fired"] = fired
+	if err := w.Flush(); err != nil {
+		return err
+	}
+	if _, hungBefore := w.Extra["stopped_after_hang_at_run"]; hungBefore {
+		return nil
 	}
 	// ---- (b) free-running goroutines, logical clock
 	w = emit.NewWriter(c.Out, "C05", "stress")
